@@ -88,7 +88,7 @@ func sortedObjKeys(m map[ObjKey]client.Object) []ObjKey {
 }
 
 func (o *diffOracle) OnWrite(s *Sim, w *Write) {
-	if o.sc.Traffic == "" || w.Key.GK != gkRollout || w.Actor != "rollout-ctrl" || w.Old == nil || w.New == nil {
+	if !o.sc.owns(w.Key) || o.sc.Traffic == "" || w.Key.GK != gkRollout || w.Actor != "rollout-ctrl" || w.Old == nil || w.New == nil {
 		return
 	}
 	rd := asReadRollout(s.cur, w.Key)
